@@ -73,3 +73,15 @@ package proto
 
 
 
+
+// connection.read: cuts exactly one frame off the byte stream. On (tail, nil) with a tail the
+// buffer holds one frame whose length is the header's length field, which is at least the 8 header
+// bytes the dispatcher indexes and at most the configured limit; the tail holds the surplus bytes.
+//@ func (c *connection) read
+//@   props C12 C16
+//@   requires [buffers] buf != nil
+//@   loop 1 invariant [counts] total == len(buf.B) && expect >= 8
+//@   at call Errorf assert [too_long_only_beyond_limit] l > c.node_maxmessagesize && c.node_maxmessagesize > 0
+//@   ensures [frame_has_header] result.0 != nil && result.1 == nil ==> len(buf.B) >= 8
+//@   ensures [frame_within_limit] result.0 != nil && result.1 == nil && c.node_maxmessagesize > 0 ==> len(buf.B) <= c.node_maxmessagesize
+//@   ensures [frame_length_is_header_field] result.0 != nil && result.1 == nil && len(buf.B) >= 6 ==> len(buf.B) == int(u32be(buf.B, 2))
